@@ -1,10 +1,13 @@
 import Corro.Props.C12
 #print axioms Corro.CatchUp.snapshot_consistent
 #print axioms Corro.CatchUp.ids_strictly_increasing_from
+#print axioms Corro.CatchUp.resume_base
+#print axioms Corro.CatchUp.ids_strictly_increasing_before_handover
 #print axioms Corro.CatchUp.done_frozen
-#print axioms Corro.CatchUp.ids_strictly_increasing_partial
-#print axioms Corro.CatchUp.handover_duplicate_counterexample
-#print axioms Corro.CatchUp.lag_swallowed_gap_counterexample
+#print axioms Corro.CatchUp.handover_duplicate_before_fix
+#print axioms Corro.CatchUp.handover_duplicate_fixed
+#print axioms Corro.CatchUp.lag_swallowed_gap_before_fix
+#print axioms Corro.CatchUp.lag_swallowed_gap_fixed
 #print axioms Corro.CatchUp.resume_outside_log
 #print axioms Corro.CatchUp.resume_outside_log_reported
 #print axioms Corro.CatchUp.client_detects
